@@ -321,6 +321,8 @@ def classify_loop(prog, iv, cons, f, R, h, body, kind="reader"):
         t = f.blocks[b]["term"]
         if t["k"] != "switch":
             continue
+        dl = op_place(t["discr"])
+        d = strip(R.place(dl)) if dl else None
         te = int_test_edges(f, R, b)
         if te is not None and 0 in te[1] and te[1][0] not in body:
             # the loop is left exactly when the count is 0 (`!= 0` test or `match n { 0 => break, .. }`)
